@@ -7,4 +7,4 @@ Separate Extraction
   std_leaves box_r box_sr tree tsize bout ist sst ipos sr
   topshape trafshape sidxshape moovshape opts fstate assemble encode_file info_file
   obs_segment f_frag f_init f_mdat f_sidxs f_mfra f_children f_segs
-  aout o_ok o_count o_alloc o_iters alloc_box_sr alloc_box_r name_of senc_box hvcc_box lou_box avcc_box.
+  aout o_ok o_count o_alloc o_iters alloc_box_sr alloc_box_r name_of senc_box.
